@@ -127,6 +127,8 @@ Proof.
     apply InvE_remove_ref. apply InvE_setc; [exact H|]. intros e Hp. cbn [cpcv cref with_fire] in *. exact (H c x e Ex Hp).
   - now apply InvE_cb_return.
   - destruct (Nat.eqb c 0); [exact H|]. destruct (cancel_root_frame s c) as [_ [E2 [E3 _]]]. now apply (InvE_ext s).
+  - destruct (watch_step_spec s c) as [->|[x [y [Hx [-> Hy]]]]]; [exact H|]. wsplit Hy. apply InvE_setc; [exact H|].
+    intros e Hp. rewrite Wcpcv in Hp. rewrite Wcref. exact (H c x e Hx Hp).
 Qed.
 
 Theorem run_InvE k es : InvE (run repaired (init k) es).
@@ -187,6 +189,8 @@ Proof.
     destruct (is_cb (cpcv (getc s c0))) eqn:Ecb; [right; left; split; [eauto | reflexivity]|]. left.
     unfold cb_return. destruct (nth_error (conss s) c0) as [x|] eqn:Ex; [|reflexivity].
     rewrite (getc_x s c0 x Ex) in Ecb, Hk. rewrite Hk. destruct (cpcv x); try reflexivity. discriminate Ecb.
+  - left. destruct (watch_step_spec s c0) as [->|[x [y [Hx [-> Hy]]]]]; [reflexivity|]. wsplit Hy. destruct (getc_nth_error s c0 x Hx) as [Eg Hl].
+    rewrite getc_setc by exact Hl. destruct (Nat.eqb_spec i c0) as [->|]; [now rewrite Eg | reflexivity].
 Qed.
 
 (* ------------------------------------------------------------------ *)
@@ -243,21 +247,28 @@ Proof.
   - rewrite getc_setc_other by (intros Ei; exact (Hk c eq_refl (eq_sym Ei))). apply getc_set_last.
 Qed.
 
-Definition Qgn (i : nat) (a0 : bool * nat * nat * nat * nat * bool) (l : list cons) : Prop :=
-  acf (nth i l cons0) = a0 \/ ac_res (nth i l cons0) = false.
+(* the part of Access's bookkeeping that reference callbacks write and that section S1 reads *)
+Definition acn (x : cons) := (ac_res x, ac_val x, ac_err x, ac_nonce x, ac_snap x).
+Lemma acn_fields x y : acn y = acn x -> ac_res y = ac_res x /\ ac_val y = ac_val x /\ ac_err y = ac_err x /\ ac_nonce y = ac_nonce x /\ ac_snap y = ac_snap x.
+Proof. unfold acn. intros H. inversion H. repeat split; reflexivity. Qed.
+Lemma acf_acn x y : acf y = acf x -> acn y = acn x.
+Proof. intros H. destruct (acf_fields _ _ H) as [E1 [E2 [E3 [E4 [E5 _]]]]]. unfold acn. now rewrite E1, E2, E3, E4, E5. Qed.
+
+Definition Qgn (i : nat) (a0 : bool * nat * nat * nat * nat) (l : list cons) : Prop :=
+  acn (nth i l cons0) = a0 \/ ac_res (nth i l cons0) = false.
 
 Lemma Qgn_gone i a0 s r : Qgn i a0 (conss s) -> Qgn i a0 (conss (invoke s r NGone)).
 Proof.
   unfold Qgn. fold (getc s i) (getc (invoke s r NGone) i). intros H.
-  destruct (invoke_acf s r NGone i) as [E|E]; [destruct (acf_fields _ _ E) as [E1 _]; rewrite E, E1; exact H|].
-  destruct (acf_fields _ _ E) as [E1 _]. unfold cb_access in E, E1.
+  destruct (invoke_acf s r NGone i) as [E|E]; [destruct (acf_fields _ _ E) as [E1 _]; rewrite (acf_acn _ _ E), E1; exact H|].
+  destruct (acf_fields _ _ E) as [E1 _]. apply acf_acn in E. unfold cb_access in E, E1.
   destruct (Bool.eqb false (ac_res (getc s i)) && Nat.eqb 0 (ac_val (getc s i)) && Nat.eqb 0 (ac_err (getc s i))).
   - rewrite E, E1. exact H.
   - right. exact E1.
 Qed.
 
-Lemma Qgn_acf i a0 l l' : acf (nth i l' cons0) = acf (nth i l cons0) -> Qgn i a0 l -> Qgn i a0 l'.
-Proof. unfold Qgn. intros E. destruct (acf_fields _ _ E) as [E1 _]. now rewrite E, E1. Qed.
+Lemma Qgn_acf i a0 l l' : acn (nth i l' cons0) = acn (nth i l cons0) -> Qgn i a0 l -> Qgn i a0 l'.
+Proof. unfold Qgn. intros E. destruct (acn_fields _ _ E) as [E1 _]. now rewrite E, E1. Qed.
 
 Lemma Qgn_add_ref i a0 s k :
   (forall c, cons_of_kind k = Some c -> c <> i) -> Qgn i a0 (conss s) -> Qgn i a0 (conss (add_ref repaired s k)).
@@ -274,9 +285,9 @@ Qed.
 (* a section that is not a store section leaves the Access bookkeeping of consumer i alone, or has told it "gone" *)
 Lemma sect_acf s e i :
   i < length (conss s) -> (forall c, e <> EConsStep c) -> (forall g, e <> EStore g) ->
-  acf (getc (step repaired s e) i) = acf (getc s i) \/ ac_res (getc (step repaired s e) i) = false.
+  acn (getc (step repaired s e) i) = acn (getc s i) \/ ac_res (getc (step repaired s e) i) = false.
 Proof.
-  intros Hi Hne Hns. set (a0 := acf (getc s i)).
+  intros Hi Hne Hns. set (a0 := acn (getc s i)).
   assert (H : Qgn i a0 (conss s)) by (left; reflexivity).
   change (Qgn i a0 (conss (step repaired s e))).
   pose proof (Qgn_gone i a0) as QG.
@@ -305,8 +316,11 @@ Proof.
   - unfold fire_section. destruct (nth_error (conss s) c0) as [x|] eqn:Ex; [|exact H]. destruct (ww_firepc x) as [[|]|]; try exact H.
     apply (G_remove_ref _ QG). rewrite conss_setc. apply (Qgn_acf i a0 (conss s)); [|exact H].
     destruct (getc_nth_error s c0 x Ex) as [Eg Hl]. destruct (Nat.eq_dec i c0) as [->|Hn]; [rewrite nth_set_nth_same by exact Hl; fold (getc s c0); now rewrite Eg | now rewrite nth_set_nth_other].
-  - apply (Qgn_acf i a0 (conss s)); [|exact H]. apply map_acf_nth. apply (cfd_cb_return acf); reflexivity.
+  - apply (Qgn_acf i a0 (conss s)); [|exact H]. apply acf_acn, map_acf_nth. apply (cfd_cb_return acf); reflexivity.
   - destruct (Nat.eqb c0 0); [exact H|]. destruct (cancel_root_frame s c0) as [_ [_ [E _]]]. now rewrite E.
+  - destruct (watch_step_spec s c0) as [->|[x [y [Hx [-> Hy]]]]]; [exact H|]. wsplit Hy. rewrite conss_setc. apply (Qgn_acf i a0 (conss s)); [|exact H].
+    destruct (getc_nth_error s c0 x Hx) as [Eg Hl]. destruct (Nat.eq_dec i c0) as [->|Hn]; [|now rewrite nth_set_nth_other].
+    rewrite nth_set_nth_same by exact Hl. fold (getc s c0). rewrite Eg. unfold acn. now rewrite Wares, Waval, Waerr, Wanonce, Wasnap.
 Qed.
 
 (* ------------------------------------------------------------------ *)
